@@ -47,15 +47,16 @@ structure Facts where
   simpleShape : Bool
   /-- `XHashIndex` = `r.SearchIndex(XXHash(i))`; `XXHash`: string → Sum64String, else Sum64(ToBytes(i)) -/
   xhashShape : Bool
-  /-- the arms of `ToBytes`, in order; `default:` panics -/
-  toBytesArms : List KType
+  /-- `ToBytes`: whole body is one of the two known shapes (today's thirteen arms; the same plus a `HitGroup` arm that
+      hashes the 8 little-endian bytes of `Hit()`), `default:` panics; which one is `Nv.Gen.C17.hitHashable` -/
+  toBytesShape : Bool
   /-- the six containers (WideMap, both WideLRUCache, KeyLockerGrp, TKeyLockerGrp, WideSemMap):
       `numbs` shards allocated, `calKeyFn` = XHashIndex | SimpleIndex, every keyed method indexes `shards[calKeyFn(key)]` -/
   containersShape : Bool
   kernelsTranslated : Bool
 deriving DecidableEq, Repr
 
-def Facts.expected : Facts := ⟨true, true, simpleArmsExpected, true, true, toBytesArmsExpected, true, true⟩
+def Facts.expected : Facts := ⟨true, true, simpleArmsExpected, true, true, true, true, true⟩
 
 /-! ### boundaries and search -/
 
@@ -108,17 +109,18 @@ deriving DecidableEq, Repr
 inductive Out | idx (i : Nat) | panic
 deriving DecidableEq, Repr
 
-/-- `ToBytes` panics ("unsupported.type.for.slot") on a type outside its switch; `XXHash` takes strings directly -/
-def Key.hashable (k : Key) : Bool := toBytesArmsExpected.contains k.ty
+/-- `ToBytes` panics ("unsupported.type.for.slot") on a type outside its switch; `XXHash` takes strings directly.
+`hit` = the source has a `HitGroup` arm in `ToBytes` (regenerated: `Nv.Gen.C17.hitHashable`; false today). -/
+def Key.hashable (hit : Bool) (k : Key) : Bool := toBytesArmsExpected.contains k.ty || (hit && k.ty == .hit)
 
-def xhashIndex (c : Cfg) (n : Nat) (k : Key) : Out :=
-  if k.hashable then .idx (searchIndex c n k.hash) else .panic
+def xhashIndex (c : Cfg) (hit : Bool) (n : Nat) (k : Key) : Out :=
+  if k.hashable hit then .idx (searchIndex c n k.hash) else .panic
 
 /-- `SimpleIndex`, parametric in the per-arm conversion to `uint64` (`none` = the `default:` arm) -/
-def simpleIndex (arm : KType → Nat → Option (BitVec 64)) (c : Cfg) (n : Nat) (k : Key) : Out :=
+def simpleIndex (arm : KType → Nat → Option (BitVec 64)) (c : Cfg) (hit : Bool) (n : Nat) (k : Key) : Out :=
   match arm k.ty k.bits with
   | some it => .idx (it.toNat % n)
-  | none => xhashIndex c n k
+  | none => xhashIndex c hit n k
 
 /-- the conversions as written today: `uint64(v)` — sign extension for signed types -/
 def armSpec : KType → Nat → Option (BitVec 64)
@@ -240,5 +242,76 @@ def LockSt.release (s : LockSt) (t : Nat) (keys : List Key) (write : Bool) : Opt
       if w.keys.all (fun k => free holds k w.write) then some (⟨grant holds w.thread w.keys w.write, none⟩, some w.thread)
       else some (⟨holds, some w⟩, none)
     | none => some (⟨holds, none⟩, none)
+
+/-! ### the same table spread over shards
+
+A lock group keeps the holders of key `k` in shard `idx k`; a multi-key call visits its keys in ascending shard
+order (`calculateSortedMultiKeys`: grouped by shard index, groups sorted, caller order inside a group). -/
+
+def insertByShard (idx : Key → Nat) (k : Key) : List Key → List Key
+  | [] => [k]
+  | x :: xs => if idx k ≤ idx x then k :: x :: xs else x :: insertByShard idx k xs
+
+/-- the order in which a multi-key call takes its keys -/
+def shardOrder (idx : Key → Nat) : List Key → List Key
+  | [] => []
+  | k :: ks => insertByShard idx k (shardOrder idx ks)
+
+structure ShLockSt where
+  shards : Nat → List Hold
+  waiter : Option Waiter
+
+def ShLockSt.empty : ShLockSt := ⟨fun _ => [], none⟩
+
+def shFree (idx : Key → Nat) (sh : Nat → List Hold) (k : Key) (write : Bool) : Bool := free (sh (idx k)) k write
+
+def shGrant (idx : Key → Nat) (sh : Nat → List Hold) (t : Nat) (keys : List Key) (write : Bool) : Nat → List Hold :=
+  fun i => sh i ++ ((shardOrder idx keys).filter (fun k => idx k = i)).map (fun k => ⟨t, k, write⟩)
+
+def shDrop (sh : Nat → List Hold) (t : Nat) (keys : List Key) (write : Bool) : Nat → List Hold :=
+  fun i => dropHolds (sh i) t keys write
+
+def ShLockSt.acquire (idx : Key → Nat) (s : ShLockSt) (t : Nat) (keys : List Key) (write : Bool) : Option (ShLockSt × Bool) :=
+  if s.waiter.isSome || keys.isEmpty || !distinct keys ||
+      keys.any (fun k => (s.shards (idx k)).any (fun h => h.thread = t && h.key = k)) then none
+  else if (shardOrder idx keys).all (fun k => shFree idx s.shards k write) then
+    some (⟨shGrant idx s.shards t keys write, none⟩, true)
+  else some (⟨s.shards, some ⟨t, keys, write⟩⟩, false)
+
+def ShLockSt.release (idx : Key → Nat) (s : ShLockSt) (t : Nat) (keys : List Key) (write : Bool) : Option (ShLockSt × Option Nat) :=
+  if keys.isEmpty || !distinct keys || (s.waiter.any (fun w => w.thread = t)) ||
+      !keys.all (fun k => (s.shards (idx k)).contains ⟨t, k, write⟩) then none
+  else
+    let sh := shDrop s.shards t keys write
+    match s.waiter with
+    | some w =>
+      if (shardOrder idx w.keys).all (fun k => shFree idx sh k w.write) then
+        some (⟨shGrant idx sh w.thread w.keys w.write, none⟩, some w.thread)
+      else some (⟨sh, some w⟩, none)
+    | none => some (⟨sh, none⟩, none)
+
+/-- lock requests and answers of a script line -/
+inductive LReq | acq (t : Nat) (keys : List Key) (write : Bool) | rel (t : Nat) (keys : List Key) (write : Bool)
+
+inductive LResp | illegal | granted | parked | released (woke : Option Nat)
+deriving DecidableEq, Repr
+
+def lockStep (s : LockSt) : LReq → LockSt × LResp
+  | .acq t keys w => match s.acquire t keys w with
+    | none => (s, .illegal)
+    | some (s', true) => (s', .granted)
+    | some (s', false) => (s', .parked)
+  | .rel t keys w => match s.release t keys w with
+    | none => (s, .illegal)
+    | some (s', woke) => (s', .released woke)
+
+def shLockStep (idx : Key → Nat) (s : ShLockSt) : LReq → ShLockSt × LResp
+  | .acq t keys w => match s.acquire idx t keys w with
+    | none => (s, .illegal)
+    | some (s', true) => (s', .granted)
+    | some (s', false) => (s', .parked)
+  | .rel t keys w => match s.release idx t keys w with
+    | none => (s, .illegal)
+    | some (s', woke) => (s', .released woke)
 
 end Nv.C17
